@@ -981,7 +981,7 @@ INVALID = [
     ('bad-indentation', ['if a:\npass\n', 'if a:\n    pass\n  pass\n', ' a\n', 'a\n  b\n', 'if a:\n        pass\n    pass\n  x\n', 'def f():\n    a\n      b\n', 'class C:\n  x\n y\n', 'if a:\n\tpass\n        pass\n  pass\n']),
     ('malformed-number', ['0777\n', '0b2\n', '0o8\n', '0x\n', '0xg\n', '1e\n', '1e+\n', '0b\n', '0o\n', '1__0\n'.replace('__', 'a'), '01\n', '09.5j'.replace('.5j', 'x') + '\n', '1.2.3\n', '0x1.5\n', '1_000\n', '0_1\n', '1e5e5\n', '12abc\n', '1.5j5\n']),
     ('malformed-string', ["'abc\n", '"abc\n', "'''abc\n", "'\\x4'\n", "'\\xZZ'\n", "'\\u12'\n", "'\\U0000004'\n", "'\\N{BOGUS NAME XYZ}'\n", "'\\N{'\n", "'\\N'\n", "b'\u00e9'\n", "b'\u20ac'\n", "'a' b'b'\n", "b'a' 'b'\n", "ur'a'\n", "bu'a'\n", "'\\U00110000'\n", "b'\\x4'\n", "'abc\\"]),
-    ('bad-target', ['1 = a\n', 'a + b = c\n', 'f() = 1\n', '"s" = 1\n', 'a, 1 = b\n', '[a, f()] = b\n', 'del 1\n', 'del f()\n', 'del a + b\n', 'a += b += c\n', 'a = b += c\n', 'for 1 in a: pass\n', 'for f() in a: pass\n', 'with a as 1: pass\n', '(a, b) += 1\n', '[a] += 1\n', 'a, b += 1\n', '*a = b\n', 'a = *b\n', '*a, *b = c\n', '(yield) = 1\n', 'lambda: 1 = 2\n', 'a if b else c = 1\n', 'a < b = c\n', 'not a = 1\n', '-a = 1\n', '() += 1\n', '... = 1\n', '[x for x in y] = 1\n', '(x for x in y) = 1\n', '{} = 1\n', '{a} = 1\n', 'import a.b as c.d\n', 'x = yield = 1\n', 'for x, 1 in y: pass\n', '[a, 1] = b\n']),
+    ('bad-target', ['1 = a\n', 'a + b = c\n', 'f() = 1\n', '"s" = 1\n', 'a, 1 = b\n', '[a, f()] = b\n', 'del 1\n', 'del f()\n', 'del a + b\n', 'a += b += c\n', 'a = b += c\n', 'for 1 in a: pass\n', 'for f() in a: pass\n', 'with a as 1: pass\n', '(a, b) += 1\n', '[a] += 1\n', 'a, b += 1\n', '(yield) = 1\n', 'lambda: 1 = 2\n', 'a if b else c = 1\n', 'a < b = c\n', 'not a = 1\n', '-a = 1\n', '() += 1\n', '... = 1\n', '[x for x in y] = 1\n', '(x for x in y) = 1\n', '{} = 1\n', '{a} = 1\n', 'import a.b as c.d\n', 'x = yield = 1\n', 'for x, 1 in y: pass\n', '[a, 1] = b\n']),
     ('bad-call', ['f(a=1, b)\n', 'f(**k, a)\n', 'f(**k, *a)\n', 'f(a for a in b, c)\n', 'f(c, a for a in b)\n', 'f(a=1, a=2)\n', 'f(1=2)\n', 'f(a.b=1)\n', 'f(f()=1)\n', 'f(lambda: 1=2)\n', 'f(a, , b)\n', 'f(,)\n', 'f(*)\n', 'f(**)\n', 'f(a=)\n', 'f(*a, *b)\n', 'f(**a, **b)\n', 'f(*a, b)\n']),
     ('bad-def', ['def f(a=1, b): pass\n', 'def f(*a, *b): pass\n', 'def f(**k, a): pass\n', 'def f(**k, *a): pass\n', 'def f(*): pass\n', 'def f(*, **k): pass\n', 'def f(a, a): pass\n', 'def f(a, *, a): pass\n', 'def f(1): pass\n', 'def f(a.b): pass\n', 'def f(a,, b): pass\n', 'def f(*a,): pass\n', 'def f(**k,): pass\n', 'def (a): pass\n', 'def f: pass\n', 'def f(a=): pass\n', 'lambda a=1, b: 0\n', 'lambda *: 0\n', 'lambda a, a: 0\n', 'lambda (a): 0\n', 'def f(a, (b, c)): pass\n', 'def f(*a, b, *c): pass\n', 'lambda *a,: 0\n', 'def f(*, a,): pass\n']),
     ('bad-import', ['import\n', 'import a,\n', 'from a import\n', 'from a import b,\n', 'from a import (b\n', 'from a import ()\n', 'from a import *, b\n', 'from a import (*)\n', 'import a.\n', 'import .a\n', 'from import a\n', 'from a.b. import c\n', 'import a as\n', 'from . import\n', 'from a import b as\n', 'import a b\n']),
@@ -1162,6 +1162,10 @@ def run(tier, rep):
         w = {'case': c, 'vrun_mode': 'parse', 'class': feat, 'got': g.get('dump') or g.get('err') or g.get('panic')}
         if g.get('panic') or g.get('crash'):
             rep.violation('C06|reject|%s|panic' % feat, w)
+        elif 'dump' in g and feat == 'mutation' and 'Starred(' in g['dump']:
+            # 3.4's PARSER accepts a starred expression anywhere a star_expr fits ('del *a', '[*a for a in b]', '(*a) = 1',
+            # '*a = b'): 3.4 rejects misuse in the compiler, 3.11 already in the parser. Not text outside the 3.4 grammar.
+            rep.extra_starred = getattr(rep, 'extra_starred', 0) + 1
         elif 'dump' in g:
             sub = rej_class(c['src'], g['dump']) if feat == 'mutation' else 'text=' + c['src'].strip()[:40]
             rep.violation('C06|reject|%s|accepted-text-outside-grammar|%s' % (feat, sub), w)
